@@ -121,10 +121,11 @@ Ltac solve_stacks :=
   reflexivity.
 
 (* the two steps that end a poll with Ready also pop the await / drop continuation frame *)
-Lemma pop_cont_cases rest : pop_cont rest = rest \/
+Definition nocont (rest : list frame) : Prop := match rest with FAwRet _ :: _ | FDropRet _ _ :: _ => False | _ => True end.
+Lemma pop_cont_cases rest : (pop_cont rest = rest /\ nocont rest) \/
   exists x r, rest = x :: r /\ pop_cont (x :: r) = r /\ ((exists f, x = FAwRet f) \/ (exists f k, x = FDropRet f k)).
 Proof. destruct rest as [|[] r]; try (by left); right; eexists _, r; (split; [done|split; [done|] ]); [left|right]; eauto. Qed.
 Ltac pop_cont_split :=
   try match goal with |- context [pop_cont ?r] =>
-    let Hpc := fresh "Hpc" in
-    destruct (pop_cont_cases r) as [Hpc|(?xc & ?rc & -> & Hpc & [[?fc ->]|[?fc [?kc ->]]])]; rewrite Hpc in *; clear Hpc end.
+    let Hpc := fresh "Hpc" in let Hnc := fresh "Hnc" in
+    destruct (pop_cont_cases r) as [[Hpc Hnc]|(?xc & ?rc & -> & Hpc & [[?fc ->]|[?fc [?kc ->]]])]; rewrite Hpc in *; clear Hpc end.
